@@ -22,16 +22,18 @@ const ModulePath = "github.com/free5gc/ike"
 
 // Ctx is the loaded program.
 type Ctx struct {
-	Dir      string
-	GOARCH   string
-	Fset     *token.FileSet
-	Pkgs     []*packages.Package
-	Prog     *ssa.Program
-	SSAPkgs  map[string]*ssa.Package // by import path
-	ModFuncs []*ssa.Function         // every function with a body in module packages (incl. closures), sorted
-	inMod    map[*ssa.Package]bool
-	modPath  string
-	Inlined  []string // "caller <- callee" for every call folded back by the helper-inlining normalisation
+	Dir         string
+	GOARCH      string
+	Fset        *token.FileSet
+	Pkgs        []*packages.Package
+	Prog        *ssa.Program
+	SSAPkgs     map[string]*ssa.Package // by import path
+	ModFuncs    []*ssa.Function         // every function with a body in module packages (incl. closures), sorted
+	inMod       map[*ssa.Package]bool
+	modPath     string
+	Inlined     []string // "caller <- callee" for every call folded back by the helper-inlining normalisation
+	Unrolled    []string // notes of the loop / table normalisation
+	DeadHelpers []string // unexported helpers left without any reference after inlining (dropped from ModFuncs)
 	// renamed anchors (anchors.go)
 	anchorAlias map[string]*ssa.Function
 	aliasTarget map[*ssa.Function]string
@@ -134,6 +136,11 @@ func Load(dir, goarch, modPath string, minPkgs int) (*Ctx, error) {
 			return !c.isAnchorFn(g) && !strings.HasPrefix(g.Name(), "toString_") && !strings.HasPrefix(g.Name(), "init")
 		}})
 		c.Inlined = res.Inlined
+		c.dropDeadHelpers()
+		// second normalisation: loops with a compile-time constant trip count are unrolled and local tables
+		// (composite literals accessed by constant indices) dissolved, see xt/ssa/unroll.go. Nothing on the
+		// tree the rules were written for qualifies.
+		c.Unrolled = ssa.NormalizeLoops(c.ModFuncs, ssa.UnrollOptions{DataOnly: true})
 	}
 	return c, nil
 }
@@ -332,4 +339,71 @@ func (c *Ctx) FuncAtLine(file string, line int) string {
 		}
 	}
 	return best
+}
+
+// dropDeadHelpers removes from ModFuncs the unexported, non-anchor functions that no module function refers to
+// any more after inlining (every call was folded into its caller): they are dead code, and rules that scan
+// "every function of the module" must not judge a body that can no longer run.
+func (c *Ctx) dropDeadHelpers() {
+	if len(c.Inlined) == 0 {
+		return
+	}
+	for round := 0; round < 4; round++ {
+		referenced := map[*ssa.Function]bool{}
+		var rands []*ssa.Value
+		for _, fn := range c.ModFuncs {
+			for _, b := range fn.Blocks {
+				for _, ins := range b.Instrs {
+					rands = ins.Operands(rands[:0])
+					for _, p := range rands {
+						if g, ok := (*p).(*ssa.Function); ok {
+							referenced[g] = true
+						}
+					}
+				}
+			}
+		}
+		var kept []*ssa.Function
+		dropped := false
+		for _, fn := range c.ModFuncs {
+			dead := fn.Parent() == nil && fn.Object() != nil && !fn.Object().Exported() && fn.Signature.Recv() == nil &&
+				!referenced[fn] && !c.isAnchorFn(fn) && !strings.HasPrefix(fn.Name(), "init") && fn.Name() != "main"
+			// unexported methods can be reached through interfaces; only those of types that implement no
+			// module interface method of that name are considered: keep it simple and require a plain function
+			// or a method that is not in any interface's method set
+			if !dead && fn.Parent() == nil && fn.Object() != nil && !fn.Object().Exported() && fn.Signature.Recv() != nil &&
+				!referenced[fn] && !c.isAnchorFn(fn) && !c.methodNameInSomeInterface(fn.Name()) {
+				dead = true
+			}
+			if dead {
+				dropped = true
+				c.DeadHelpers = append(c.DeadHelpers, fn.String())
+				continue
+			}
+			kept = append(kept, fn)
+		}
+		c.ModFuncs = kept
+		if !dropped {
+			break
+		}
+	}
+}
+
+func (c *Ctx) methodNameInSomeInterface(name string) bool {
+	for _, sp := range c.SSAPkgs {
+		for _, m := range sp.Members {
+			t, ok := m.(*ssa.Type)
+			if !ok {
+				continue
+			}
+			if it, ok := t.Type().Underlying().(*types.Interface); ok {
+				for i := 0; i < it.NumMethods(); i++ {
+					if it.Method(i).Name() == name {
+						return true
+					}
+				}
+			}
+		}
+	}
+	return false
 }
